@@ -22,9 +22,39 @@ import (
 	"github.com/grafana/cog/verifx/vx"
 )
 
-func goEnv() []string {
-	return append(os.Environ(), "GOFLAGS=-mod=mod", "GOPROXY=off", "GOSUMDB=off", "GOTOOLCHAIN=local", "GOWORK=off", "CGO_ENABLED=0")
+// GenGoCache is the build cache used for generated code. Generated packages
+// are unique per run, so compiling them in the user's default cache would
+// grow it without bound; this one is wiped every genCacheRuns workspaces.
+var GenGoCache = func() string {
+	if d := os.Getenv("VERIF_GEN_GOCACHE"); d != "" {
+		return d
+	}
+	return "/var/tmp/verif-gocache"
+}()
+
+const genCacheRuns = 30
+
+func prepareGenCache() {
+	os.MkdirAll(GenGoCache, 0o755)
+	counter := filepath.Join(GenGoCache, "verif-runs")
+	n := 0
+	if b, err := os.ReadFile(counter); err == nil {
+		fmt.Sscan(string(b), &n)
+	}
+	if n >= genCacheRuns {
+		os.RemoveAll(GenGoCache)
+		os.MkdirAll(GenGoCache, 0o755)
+		n = 0
+	}
+	os.WriteFile(counter, []byte(fmt.Sprint(n+1)), 0o644)
 }
+
+func goEnv() []string {
+	return append(os.Environ(), "GOFLAGS=-mod=mod", "GOPROXY=off", "GOSUMDB=off", "GOTOOLCHAIN=local", "GOWORK=off", "CGO_ENABLED=0", "GOCACHE="+GenGoCache)
+}
+
+// GoEnv is the environment for compiling generated Go code.
+func GoEnv() []string { return goEnv() }
 
 var pkgHeader = regexp.MustCompile(`^# (verifgen/\S+)`)
 
